@@ -111,6 +111,10 @@ def _generate_case(c, fn, case, ci, registry, rep):
         post.locals = dict(entry.locals)
         post.locals.update(env)
         rep.vacuity.append(("%s.return%d_reachable" % (ctx.cur_func, nret), list(s2.pc)))
+        for lem in c.options.get("ensures_lemmas", ()):
+            h = eval_clause(I, lem, post, 0, old=entry)
+            if h is not True:
+                post.pc.append(z(h))
         for eid, text in c.ensures:
             tags = tuple(t for t in eid.split(".")[0:1] if t.startswith("C"))
             try:
